@@ -175,6 +175,7 @@ impl Prop for Repair {
             let mut prev: Option<(usize, BTreeMap<String, Vec<u8>>)> = None;
             for &n in &cuts {
                 let fault = Fault::Cut { n };
+                crate::seams::fired("crash_cut");
                 let cls = format!("auth={auth}");
                 let cut = Rc::new(image[..n].to_vec());
                 let mut rcfg = rcfg0.clone();
